@@ -1098,4 +1098,124 @@ theorem placed_runOff (root : Img) (steps : List Step) : ∀ (im im' : Img) (off
       · exact absurd h (by simp)
     · exact absurd h (by simp)
 
+/-! ### progress: in-range steps do not raise -/
+theorem matMap_exists (d : Dim) : ∃ mm, matMap d = .ok mm := by
+  cases d
+  · exact ⟨[(0, false)], by decide⟩
+  · exact ⟨[(1, true), (0, false)], by decide⟩
+  · exact ⟨[(2, true), (0, false), (1, true)], by decide⟩
+
+/-- `subregion(tuple of slices)` never raises when one slice per spatial axis is given -/
+theorem subSlices_succeeds (im : Img) (sls : List PySlice) (h : sls.length = im.cs.dim.toNat) :
+    ∃ im', im.subSlices sls = .ok im' := by
+  obtain ⟨am, ham, _⟩ := axisMap_exists im.cs.dim
+  obtain ⟨mm, hmm⟩ := matMap_exists im.cs.dim
+  unfold Img.subSlices
+  simp only [h, ne_eq, not_true_eq_false, if_false, bind, Except.bind, pure, Except.pure, CS.coordinate, ham, Except.map, hmm]
+  exact ⟨_, rfl⟩
+
+theorem mapM_succeeds {α β} (f : α → Except Err β) (l : List α) (h : ∀ a ∈ l, ∃ b, f a = .ok b) :
+    ∃ r, l.mapM f = .ok r ∧ r.length = l.length := by
+  induction l with
+  | nil => exact ⟨[], rfl, rfl⟩
+  | cons a l ih =>
+    obtain ⟨b, hb⟩ := h a (by simp)
+    obtain ⟨r, hr, hl⟩ := ih (fun x hx => h x (by simp [hx]))
+    refine ⟨b :: r, ?_, by simp [hl]⟩
+    rw [List.mapM_cons, hb, hr]; rfl
+
+/-- the point ROIs (VoxelArray / CoordinateArray) of at least one point give one slice per axis -/
+theorem boxSlices_succeeds (shape : List Nat) (pts : List (List Int)) (hp : pts ≠ []) :
+    ∃ sls, boxSlices shape pts = .ok sls ∧ sls.length = shape.length := by
+  unfold boxSlices
+  obtain ⟨r, hr, hl⟩ := mapM_succeeds (fun (x : Nat × Nat) =>
+      match colMin pts x.2, colMax pts x.2 with
+      | some lo, some hi => (Except.ok (some (max 0 lo), some (max 0 (min hi (x.1 : Int)))) : Except Err PySlice)
+      | _, _ => .error .value) shape.zipIdx (by
+    intro x _
+    have h1 : ∃ lo, colMin pts x.2 = some lo := by
+      unfold colMin
+      cases hm : (pts.map fun p => listGetD p x.2 0).min? with
+      | some lo => exact ⟨lo, rfl⟩
+      | none => rw [List.min?_eq_none_iff] at hm; simp at hm; exact absurd hm hp
+    have h2 : ∃ hi, colMax pts x.2 = some hi := by
+      unfold colMax
+      cases hm : (pts.map fun p => listGetD p x.2 0).max? with
+      | some hi => exact ⟨hi, rfl⟩
+      | none => rw [List.max?_eq_none_iff] at hm; simp at hm; exact absurd hm hp
+    obtain ⟨lo, hlo⟩ := h1
+    obtain ⟨hi, hhi⟩ := h2
+    simp only [hlo, hhi]
+    exact ⟨_, rfl⟩)
+  exact ⟨r, hr, by simpa using hl⟩
+
+/-- `time_slice(k)` succeeds on a series for every index in `[-T, T)` (under the placement invariant) -/
+theorem timeSlice_succeeds (root im : Img) (off : List Nat) (hP : Placed root im off) (hs : im.series = true) (k : Int)
+    (hk : -(im.slabs.length : Int) ≤ k ∧ k < im.slabs.length) : ∃ im', im.timeSlice k = .ok im' := by
+  have hpy : ∃ i, pyIndex im.slabs.length k = .ok i ∧ i < im.slabs.length := by
+    unfold pyIndex
+    by_cases h0 : 0 ≤ k
+    · exact ⟨k.toNat, by simp [h0, hk.2], by omega⟩
+    · have hn : k < 0 := by omega
+      exact ⟨(k + im.slabs.length).toNat, by simp [h0, hn, hk.1], by omega⟩
+  obtain ⟨i, hi, hlt⟩ := hpy
+  have hti : i < im.time.length := by rw [hP.lens.1]; exact hlt
+  have hdi : i < im.date.length := by rw [hP.lens.2]; exact hlt
+  unfold Img.timeSlice
+  simp only [hs, Bool.not_true, Bool.false_eq_true, if_false, hi]
+  have hst : ∃ tm, sliceTime (listGetD im.time i none) (listGetD im.date i none) im.ref = .ok tm := by
+    unfold sliceTime
+    cases ht : listGetD im.time i none with
+    | some t => exact ⟨_, rfl⟩
+    | none =>
+      have : im.time[i]? = some none := by
+        unfold listGetD at ht; rw [List.getElem?_eq_getElem hti] at ht ⊢; simpa using ht
+      have hd := hP.consistent i this
+      have : listGetD im.date i none = none := by unfold listGetD; rw [hd]; rfl
+      rw [this]; exact ⟨_, rfl⟩
+  obtain ⟨tm, htm⟩ := hst
+  rw [htm]
+  simp only [List.getElem?_eq_getElem hlt]
+  exact ⟨_, rfl⟩
+
+theorem timeInterval_succeeds (im : Img) (hs : im.series = true) (s : PySlice) : ∃ im', im.timeInterval s = .ok im' := by
+  unfold Img.timeInterval
+  simp [hs, bind, Except.bind, pure, Except.pure]
+
+theorem step_succeeds (root im : Img) (off : List Nat) (hP : Placed root im off) (st : Step)
+    (hg : match st with
+      | .sub sls => sls.length = im.cs.dim.toNat
+      | .subVox pts => pts ≠ []
+      | .subCoord pts => pts ≠ []
+      | .tslice k => im.series = true ∧ -(im.slabs.length : Int) ≤ k ∧ k < im.slabs.length
+      | .tinterval _ => im.series = true) : ∃ im', im.step st = .ok im' := by
+  cases st with
+  | sub sls => exact subSlices_succeeds im sls hg
+  | subVox pts =>
+    obtain ⟨sls, hb, hl⟩ := boxSlices_succeeds im.cs.shape pts hg
+    obtain ⟨im', h⟩ := subSlices_succeeds im sls (by rw [hl, hP.ok.shapeLen])
+    exact ⟨im', by simp only [Img.step, Img.subVoxels, bind, Except.bind, hb]; exact h⟩
+  | subCoord pts =>
+    obtain ⟨am, ham, _⟩ := axisMap_exists im.cs.dim
+    have hv := voxelB_ok im.cs am ham pts
+    obtain ⟨sls, hb, hl⟩ := boxSlices_succeeds im.cs.shape (pts.map (voxelWith am im.cs)) (by simpa using hg)
+    obtain ⟨im', h⟩ := subSlices_succeeds im sls (by rw [hl, hP.ok.shapeLen])
+    exact ⟨im', by simp only [Img.step, Img.subCoords, bind, Except.bind, hv, hb]; exact h⟩
+  | tslice k => exact timeSlice_succeeds root im off hP hg.1 k hg.2
+  | tinterval s => exact timeInterval_succeeds im hg s
+
+theorem sub_nonempty_iff (im im' : Img) (sls : List PySlice) (h : im.subSlices sls = .ok im') :
+    im'.nonempty = true ↔ ∀ s ∈ List.zipWith sliceIdx im.cs.shape sls, s.1 < s.2 := by
+  obtain ⟨_, hshape⟩ := subSlices_shape im im' sls h
+  unfold Img.nonempty
+  rw [hshape, List.all_eq_true]
+  constructor
+  · intro hh s hs
+    have := hh (s.2 - s.1) (List.mem_map.mpr ⟨s, hs, rfl⟩)
+    simp at this; omega
+  · intro hh x hx
+    obtain ⟨s, hs, rfl⟩ := List.mem_map.mp hx
+    have := hh s hs
+    simp; omega
+
 end Darsia.Im
